@@ -93,7 +93,9 @@ def join_rule(facts, ex, res, kind):
                 if rets and waits and min(r["l"][1] for r in rets) < max(w["l"][1] for w in waits):
                     ok = False
             if kind == "omp":
-                creator = [a for a in tbf.ancestors(c) if a.get("k") in ("OMPMasterDirective", "OMPSingleDirective", "OMPMaskedDirective", "OMPSectionDirective")]
+                # the nearest construct whose implicit / explicit task generates the stage's tasks: a stage call wrapped in its own `omp task`
+                # makes that task the parent of everything the stage submits
+                creator = [a for a in tbf.ancestors(c) if a.get("k") in ("OMPMasterDirective", "OMPSingleDirective", "OMPMaskedDirective", "OMPSectionDirective", "OMPTaskDirective", "OMPTaskLoopDirective")][:1]
                 if not creator:
                     # the first structured block of `omp sections` needs no `omp section` pragma: it is a section (one thread) of its own
                     creator = [a for a in tbf.ancestors(c) if a.get("k") == "OMPSectionsDirective"]
